@@ -4,6 +4,8 @@ package main
 
 import (
 	"fmt"
+	"go/token"
+	"golang.org/x/tools/go/ssa"
 	"strings"
 )
 
@@ -310,6 +312,58 @@ func runC07(cx *Ctx, r *Report) {
 		}
 	}
 	r.ok("closed-world", "scan", "", fmt.Sprintf("%d bank effects of the service handlers and block handlers classified", n))
+	// ---------------- requests of a repeated batch are issued only after the charge went through
+	// In the end blocker's new-batch body a failed charge pauses the context through a pointer;
+	// the test that lets the requests be created must therefore read the context's State AFTER
+	// the charge (a value read before it is stale and issues unpaid requests).
+	{
+		evs := per["EndBlock"]
+		nIssue := 0
+		for _, x := range evs {
+			if x.ev.Kind != "store.set" || !hasPrefix(x.ev, "service:RequestKey=0x13") {
+				continue
+			}
+			cf, site := closureAncestor(x.ev)
+			if cf == nil || site == nil {
+				continue
+			}
+			charges := findCalls(cf.Fn, func(ci ssa.CallInstruction) bool {
+				g := ci.Common().StaticCallee()
+				return g != nil && g.Name() == "DeductServiceFees"
+			})
+			if len(charges) == 0 {
+				continue // not the body that charges (e.g. another closure)
+			}
+			nIssue++
+			fresh := false
+			for _, df := range dominatingFacts(site.Block()) {
+				bo, ok := df.Cond.(*ssa.BinOp)
+				if !ok || !df.Holds || bo.Op != token.EQL {
+					continue
+				}
+				for _, side := range []ssa.Value{bo.X, bo.Y} {
+					ld, ok := side.(*ssa.UnOp)
+					if !ok || ld.Op != token.MUL {
+						continue
+					}
+					fa, ok := ld.X.(*ssa.FieldAddr)
+					if !ok || fieldNameShort(fa.X.Type(), fa.Field) != "State" {
+						continue
+					}
+					for _, ch := range charges {
+						if instrReaches(ch, ld) {
+							fresh = true
+						}
+					}
+				}
+			}
+			r.check(fresh, "issue-after-charge", "EndBlock", x.ev.Pos(cx), "the requests of a due batch are created under a State == RUNNING test whose State is read after the charge (a failed charge pauses the context first)", "the requests of a due batch are created under a State test that does not re-read the context after DeductServiceFees: when the charge fails the context is paused but the (stale) test still lets unpaid requests be issued, so recorded fees exceed what the consumer was charged")
+		}
+		if nIssue == 0 {
+			r.toolErr("no request creation found in the charging body of the end blocker")
+		}
+	}
+	r.requireCount("issue-after-charge", 1)
 	r.requireCount("deposit-double-entry", 4)
 	r.requireCount("respond-split", 2)
 	r.requireCount("fee-provenance", 2)
